@@ -459,3 +459,23 @@ func VerifPushPullReq(m *Memberlist) uint32 { return m.pushPullReq.Load() }
 func VerifEncryptLocalState(m *Memberlist, sendBuf []byte, label string) ([]byte, error) {
 	return m.encryptLocalState(sendBuf, label)
 }
+
+// ---- suspicion timer hooks ----
+
+// VerifNewSuspicion wraps newSuspicion.
+func VerifNewSuspicion(from string, k int, min, max time.Duration, fn func(int)) *VerifSuspicion {
+	return &VerifSuspicion{newSuspicion(from, k, min, max, fn)}
+}
+
+// Confirm wraps suspicion.Confirm.
+func (h *VerifSuspicion) Confirm(from string) bool { return h.s.Confirm(from) }
+
+// VerifRemainingSuspicionTime wraps remainingSuspicionTime.
+func VerifRemainingSuspicionTime(n, k int32, elapsed, min, max time.Duration) time.Duration {
+	return remainingSuspicionTime(n, k, elapsed, min, max)
+}
+
+// VerifSuspicionTimeout wraps suspicionTimeout.
+func VerifSuspicionTimeout(mult, n int, interval time.Duration) time.Duration {
+	return suspicionTimeout(mult, n, interval)
+}
